@@ -232,7 +232,7 @@ class C11(Prop):
         "sorted_flag_sound", "collect_then_tail", "tail_query_agrees", "rank_query_agrees", "tailmass_query_agrees",
         "settail_agrees_with_raw_data", "settailbymass_agrees_with_raw_data", "declare_censoring_agrees", "lognormal_fit_closed_form", "lognormal_mu_is_maximiser",
         "gumbel_profile_concave", "gumbel_complete_fit_near_optimal", "gumbel_censored_fit_near_optimal",
-        "cg_return_means_stopping_rule", "cg_hangs_only_in_brent", "weibull_sxp_fit_post", "truncated_gumbel_fit_post", "cg_fit_location_is_minimum",
+        "cg_return_means_stopping_rule", "cg_hangs_only_in_brent", "weibull_sxp_fit_post", "truncated_gumbel_fit_post", "weibull_binned_fit_post", "gamma_engine_post", "cg_fit_location_is_minimum",
         "exp_fit_closed_form", "exp_fit_is_maximiser", "gumbel_mu_is_maximiser", "lawless_is_derivative", "gumbel_complete_fit_stationary",
         "gumbel_censored_fit_stationary", "gumbel_loc_fits_closed_form", "gumbel_fits_terminate")]
     claimed = True
@@ -555,6 +555,7 @@ class C11(Prop):
             else: ops.append("hrank r=%d" % rng.choice([1, max(1, len(vals))]))
             ops.append("hdump")
         ops.append("hexpfit")
+        if rng.random() < 0.3: ops.append("hweifit")      # modelled: any histogram state, incl. censored / clamped cmin
         if rng.random() < 0.5:
             ops.append("hadd xs=" + d(some_phi()))
             ops.append("hdump")
